@@ -31,6 +31,7 @@ import (
 	"encoding/hex"
 	"fmt"
 	"math/rand"
+	"slices"
 	"strings"
 
 	"github.com/canopy-network/canopy/fsm"
@@ -53,6 +54,9 @@ func Run(o *drv.Out) {
 	}
 	for ci := 0; ci < nCases; ci++ {
 		execdrv.Guard(o, func() { failedTxCase(o, ci, nHeights) })
+	}
+	for v := 0; v < 3; v++ {
+		execdrv.Guard(o, func() { failedEventsCase(o, v) })
 	}
 	indexVariants := 3
 	if o.Tier == "thorough" || o.Search {
@@ -219,6 +223,7 @@ func failedTxCase(o *drv.Out, ci, nHeights int) {
 		c.Hold = true
 		okA := c.Validate(A, p)
 		if okA {
+			eventsOfSuccessfulOnly(o, A, h, p, fmt.Sprintf("mempool with %d failing and %d oversize transactions", len(fail), len(over)))
 			c.Commit(A, p, false)
 		}
 		post := A.StateDigest()
@@ -308,6 +313,185 @@ func failedTxCase(o *drv.Out, ci, nHeights int) {
 	}
 }
 
+// eventsOfSuccessfulOnly: the events of the block result the proposer's mempool cached with its proposal
+// (ApplyBlock over the whole mempool: failing and oversize transactions executed and rolled back) must
+// be the events of executing exactly the block's transactions (what Validate computed on the same node).
+// Call after c.Propose(A, ...) and a successful c.Validate(A, p).
+func eventsOfSuccessfulOnly(o *drv.Out, A *node.Node, h uint64, p *execdrv.Proposal, what string) bool {
+	prop, ok1 := A.ProposalEvents()
+	val, ok2 := A.CachedResultEvents()
+	if !ok1 || !ok2 {
+		return true
+	}
+	o.Count("events-compared")
+	if strings.Join(prop, ",") == strings.Join(val, ",") {
+		return true
+	}
+	blk := cloneBlock(p.Block)
+	in := map[string]bool{}
+	for _, tx := range blk.Transactions {
+		in[crypto.HashString(tx)] = true
+	}
+	var foreign []string
+	for _, hx := range prop {
+		bz, _ := hex.DecodeString(hx)
+		e := new(lib.Event)
+		if lib.Unmarshal(bz, e) == nil && e.Reference != "" && !in[e.Reference] && len(e.Reference) == 64 {
+			foreign = append(foreign, fmt.Sprintf("%s referring to transaction %s", e.EventType, e.Reference[:16]))
+		}
+	}
+	o.Fail("C07:failed-tx-left-trace:events",
+		fmt.Sprintf("height %d, %s: the block result the proposer built next to the failing transactions has the events %v; executing exactly the block's %d transactions gives %v; events of transactions that are not in the block: %v",
+			h, what, node.DescribeEvents(prop), len(blk.Transactions), node.DescribeEvents(val), foreign),
+		map[string]any{"case": o.CurCase(), "height": h, "block": hex.EncodeToString(p.Block), "proposal_events": prop, "events_of_the_block_alone": val})
+	return false
+}
+
+// failedEventsCase: scenario "failed-last-tx-emitted-events". A certificate-results transaction of
+// the nested chain 2 whose handler EMITS AN EVENT AND THEN FAILS, as the last transaction the
+// proposer's mempool executes (the mempool orders certificate results FIRST, so nothing else of that
+// mempool may reach ApplyTransaction: the mempool of height 2 holds nothing else that passes the pre-check):
+// HandleCommitteeSwaps locks a sell order of the root chain's order book (order-book-lock event), then
+//
+//	variant 0: HandleCheckpoint rejects a checkpoint height not above the most recent one
+//	variant 1: HandleByzantine rejects double-sign evidence that is already indexed
+//	variant 2: as 0, but a failing send with a forged signature follows it in the mempool (it never
+//	           reaches ApplyTransaction, so the certificate results stay the last executed transaction)
+//
+//	h1: create-order (sell order on committee 2) + certificate results (nested height 1): checkpoint 100, evidence {validator 0, height 1}
+//	h2: the failing certificate results (nested height 2) carrying the lock order, alone (variants 0, 1)
+//	h3: send + the same lock order in certificate results that succeed (checkpoint 150): control, the
+//	    block's events contain the order-book-lock event
+//	h4: send only
+//
+// At every height: the events of the proposer's cached proposal == the events of executing exactly the
+// block's transactions == the events of the block the reference node A2 builds from those transactions
+// alone; the events of the NEXT block agree too (nothing stayed in the tracker).
+func failedEventsCase(o *drv.Out, variant int) {
+	o.Case(fmt.Sprintf("failed-last-tx-emitted-events~v%d", variant))
+	rng := rand.New(rand.NewSource(59 + int64(variant)))
+	const nested = node.ChainId + 1
+	net := node.NewNetwork(25+int64(variant), 4, nil, 12, node.Options{MutateGenesis: func(g *fsm.GenesisState) {
+		for _, v := range g.Validators {
+			v.Committees = []uint64{node.ChainId, nested}
+		}
+		g.Pools = append(g.Pools, &fsm.Pool{Id: nested, Amount: 1})
+	}})
+	defer net.Close()
+	c := execdrv.NewChain(o, net, rng, []int{16, 2})
+	c.CanonErrors = true
+	A, A2, B := c.NewNode("A", 0), c.NewNode("A2", 0), c.NewNode("B", 1)
+	rewards := func() *lib.RewardRecipients {
+		return &lib.RewardRecipients{PaymentPercents: []*lib.PaymentPercents{{Address: net.FreshAddr(1), Percent: 100, ChainId: nested}}}
+	}
+	evidence := &lib.SlashRecipients{DoubleSigners: []*lib.DoubleSigner{{Id: net.ValKeys[0].PublicKey().Bytes(), Heights: []uint64{1}}}}
+	var orderId []byte
+	lock := func() *lib.Orders {
+		return &lib.Orders{LockOrders: []*lib.LockOrder{{OrderId: orderId, ChainId: nested, BuyerReceiveAddress: net.FreshAddr(71), BuyerSendAddress: net.FreshAddr(72), BuyerChainDeadline: 1000}}}
+	}
+	signers := []int{0, 1, 2, 3}
+	for hi := 0; hi < 4; hi++ {
+		h := A.Height()
+		txs := [][]byte{net.SendTx(net.AcctKeys[hi], net.FreshAddr(600+hi), 1000, minFee+5000, h, "")}
+		wantIncluded, what := 1, "ordinary block"
+		if hi == 1 {
+			txs, wantIncluded = nil, 0
+		}
+		switch hi {
+		case 0:
+			order := net.CreateOrderTx(net.AcctKeys[4], nested, 2_000_000_000, 5, net.FreshAddr(70), minFee+4000, h)
+			orderId = node.OrderId(order)
+			txs = append(txs, order, net.CertificateResultsTx(A, nested, 1, h-1, 0, signers,
+				&lib.CertificateResult{RewardRecipients: rewards(), SlashRecipients: evidence, Checkpoint: &lib.Checkpoint{Height: 100, BlockHash: net.FreshAddr(100)}}, h))
+			wantIncluded = 3
+		case 1:
+			res := &lib.CertificateResult{RewardRecipients: rewards(), Orders: lock()}
+			if variant == 1 {
+				res.SlashRecipients, what = evidence, "mempool = certificate results that lock a sell order (order-book-lock event) and then fail on double-sign evidence already indexed"
+			} else {
+				res.Checkpoint, what = &lib.Checkpoint{Height: 50, BlockHash: net.FreshAddr(50)}, "mempool = certificate results that lock a sell order (order-book-lock event) and then fail on a checkpoint height not above the most recent one"
+			}
+			txs = append(txs, net.CertificateResultsTx(A, nested, 2, h-1, 0, signers, res, h))
+			if variant == 2 {
+				txs = append(txs, node.CorruptSignature(net.SendTx(net.AcctKeys[5], net.FreshAddr(650), 5, minFee, h, "")))
+				what += ", then a send with a forged signature"
+			}
+		case 2:
+			txs = append(txs, net.CertificateResultsTx(A, nested, 3, h-1, 0, signers,
+				&lib.CertificateResult{RewardRecipients: rewards(), Orders: lock(), Checkpoint: &lib.Checkpoint{Height: 150, BlockHash: net.FreshAddr(150)}}, h))
+			wantIncluded, what = 2, "control: the same lock order in certificate results that succeed"
+		}
+		for _, tx := range txs {
+			if err := A.Submit(tx); err != nil {
+				panic(err)
+			}
+		}
+		pre := A.StateDigest()
+		p, ok := c.Propose(A, nil, "produce")
+		if !ok {
+			return
+		}
+		blk := cloneBlock(p.Block)
+		c.Hold = true
+		okA := c.Validate(A, p)
+		evOK := !okA || eventsOfSuccessfulOnly(o, A, h, p, what)
+		if okA {
+			c.Commit(A, p, false)
+		}
+		o.Op(fmt.Sprintf("def %d %s %s %s %s", h, pre, p.ID, A.StateDigest(), p.Obs), "def")
+		c.Release()
+		if !okA || !c.Validate(B, p) {
+			o.Fail("C07:failed-tx-left-trace", fmt.Sprintf("height %d (%s): the block is rejected (proposer accepts: %v)", h, what, okA), map[string]any{"case": o.CurCase(), "height": h, "block": hex.EncodeToString(p.Block)})
+			return
+		}
+		c.Commit(B, p, false)
+		// the reference: the block A2 builds from the block's transactions alone
+		for _, tx := range blk.Transactions {
+			if err := A2.Submit(tx); err != nil {
+				panic(err)
+			}
+		}
+		p2, ok2 := c.Propose(A2, nil, "produce")
+		if !ok2 {
+			return
+		}
+		c.Hold = true
+		pre2 := A2.StateDigest()
+		if ok2 = c.Validate(A2, p2); ok2 {
+			c.Commit(A2, p2, false)
+		}
+		o.Op(fmt.Sprintf("def %d %s %s %s %s", h, pre2, p2.ID, A2.StateDigest(), p2.Obs), "def")
+		c.Release()
+		evA, evA2, evB := A.BlockEvents(h), A2.BlockEvents(h), B.BlockEvents(h)
+		o.Count("events-compared")
+		if !ok2 || strings.Join(evA, ",") != strings.Join(evA2, ",") || strings.Join(evA, ",") != strings.Join(evB, ",") {
+			o.Fail("C07:failed-tx-left-trace:events",
+				fmt.Sprintf("height %d (%s): the stored block events are %v on the proposer, %v on the replica, %v for the block built from its %d transactions alone (accepted: %v)", h, what, node.DescribeEvents(evA), node.DescribeEvents(evB), node.DescribeEvents(evA2), len(blk.Transactions), ok2),
+				map[string]any{"case": o.CurCase(), "height": h, "block": hex.EncodeToString(p.Block)})
+			return
+		}
+		if d := node.DiffDumps(A.StateDump(), A2.StateDump()); len(d) != 0 {
+			o.Fail("C07:failed-tx-left-trace", fmt.Sprintf("height %d (%s): full state scan differs from the block built from its transactions alone (%d keys, first: %s)", h, what, len(d), d[0]), map[string]any{"case": o.CurCase(), "height": h, "block": hex.EncodeToString(p.Block)})
+			return
+		}
+		if !evOK {
+			return
+		}
+		hasLock := false
+		for _, d := range node.DescribeEvents(evA) {
+			hasLock = hasLock || strings.HasPrefix(d, string(lib.EventTypeOrderBookLock))
+		}
+		if len(blk.Transactions) != wantIncluded || hasLock != (hi == 2) {
+			o.Fail("C07:scenario-expectation-differs:failed-last-tx-emitted-events",
+				fmt.Sprintf("height %d (%s): expected %d transactions included and order-book-lock event present=%v; the block has %d of %d, events %v", h, what, wantIncluded, hi == 2, len(blk.Transactions), len(txs), node.DescribeEvents(evA)),
+				map[string]any{"case": o.CurCase(), "height": h, "block": hex.EncodeToString(p.Block)})
+			return
+		}
+		o.Nontrivial(fmt.Sprintf("%s|%d", o.CurCase(), hi))
+	}
+	o.Sample(o.CurCase() + ": certificate results that emit an order-book-lock event and then fail as the last executed transaction leave no event in the proposal, the block or the next block; the same lock order in succeeding certificate results does")
+}
+
 // indexWritingCase: transactions whose handlers write to the INDEXER (the property names state,
 // events, indexes and in-memory trackers): certificate results of a nested chain carrying a
 // checkpoint and double-sign evidence (HandleCheckpoint -> IndexCheckpoint, HandleDoubleSigners ->
@@ -350,7 +534,9 @@ func indexWritingCase(o *drv.Out, variant int) {
 	evidence := &lib.SlashRecipients{DoubleSigners: []*lib.DoubleSigner{{Id: net.ValKeys[0].PublicKey().Bytes(), Heights: []uint64{1}}}}
 	probeHeights := []uint64{99, 101}
 	cp := func(height uint64) *lib.Checkpoint {
-		probeHeights = append(probeHeights, height)
+		if !slices.Contains(probeHeights, height) {
+			probeHeights = append(probeHeights, height)
+		}
 		return &lib.Checkpoint{Height: height, BlockHash: net.FreshAddr(int(height))}
 	}
 	var valAddrs [][]byte
@@ -438,6 +624,7 @@ func indexWritingCase(o *drv.Out, variant int) {
 		c.Hold = true
 		okA := c.Validate(A, p)
 		if okA {
+			eventsOfSuccessfulOnly(o, A, h, p, "index-writing transactions")
 			c.Commit(A, p, false)
 		}
 		o.Op(fmt.Sprintf("def %d %s %s %s %s", h, pre, p.ID, A.StateDigest(), p.Obs), "def")
